@@ -14,6 +14,9 @@ G_QUICK = [Fraction(7, 5), Fraction(5, 3), Fraction(3)]
 G_FULL = [Fraction(6, 5), Fraction(7, 5), Fraction(5, 3), Fraction(2), Fraction(3)]
 
 
+SYM_INPUT_ARRAYS = False      # obligations that opt in get input arrays whose comparisons give boolean masks (engine.SymArr)
+
+
 def arr(values):
     """1-D array of inputs: object dtype when symbolic, float otherwise."""
     values = list(values)
@@ -21,6 +24,9 @@ def arr(values):
         a = np.empty(len(values), dtype=object)
         for i, v in enumerate(values):
             a[i] = v
+        if SYM_INPUT_ARRAYS:
+            from symx.engine import SymArr
+            return a.view(SymArr)
         return a
     return np.array([float(v) for v in values], dtype=float)
 
